@@ -358,12 +358,93 @@ def explore_histories(ctx, base, n):
     ctx.cov["max_rounds_to_fixed_point"] = worst
 
 
+def explore_hsm(ctx, base):
+    """HSM groups: suspect copies on a Lustre-HSM node in every residency state (on disk and archived, on disk and not yet archived, released
+    to tape), each the source of a pending transfer to another group on the same host; the real node / group updates run round after round
+    over a scripted lfs and a virtual clock.  Every copy must get its verdict, every transfer complete and no task keep re-queueing itself."""
+    import itertools
+    import os as _os
+
+    from alpenhorn.common import util
+    from alpenhorn.daemon import update as U
+    from alpenhorn.scheduler import pool
+    from vf.harness import lustre
+    from vf.props import c20
+
+    combos = [c for c in itertools.product(("restored", "released", "unarchived"), repeat=2)] + [("unarchived", "unarchived", "restored"), ("released", "unarchived", "released")]
+    for states in combos:
+        nf = len(states)
+        W = c20.World(base / "hsm5", "hsm", nf, [10 + 7 * i for i in range(nf)])
+        w = W.w
+        fl = lustre.FakeLustre(None)
+        fl.install()
+        lfs_stand_in = util.run_command
+
+        def run_command(cmd, *a, _fl=fl, _lfs=lfs_stand_in, **k):
+            # transports are the system's own; everything else is the scripted lfs
+            return _fl._orig(cmd, *a, **k) if _os.path.basename(str(cmd[0])) in ("rsync", "bbcp") else _lfs(cmd, *a, **k)
+
+        util.run_command = run_command
+        pool.global_abort.clear()
+        try:
+            for i, st in enumerate(states):
+                W.add_copy(i, has="M", ready=(st in lustre.RESIDENT))
+                fl.state[W.paths[i]] = st
+                w.mkreq(W.files[i], W.node, W.g2)
+            un_h = U.UpdateableNode(W.queue, w.StorageNode.get(id=W.node.id))
+            un_o = U.UpdateableNode(W.queue, w.StorageNode.get(id=W.other.id))
+            ug = U.UpdateableGroup(queue=W.queue, group=w.StorageGroup.get(id=W.g2.id), nodes=[un_o], idle=un_o.idle)
+            seen, fixed_at, ok = None, None, True
+            for rnd in range(ROUND_LIMIT):
+                un_h.reinit(w.StorageNode.get(id=W.node.id))
+                un_o.reinit(w.StorageNode.get(id=W.other.id))
+                ug.reinit(group=w.StorageGroup.get(id=W.g2.id), nodes=[un_o], idle=un_o.idle)
+                for x in (un_h, un_o, ug):
+                    x.update()
+                for x in (un_h, un_o, ug):
+                    x.update_idle()
+                ug.io.after_update()
+                un_h.io.after_update()
+                un_o.io.after_update()
+                ok = c20.drain_due(W) and ok
+                # ten minutes pass: running restores finish, deferred tasks come due
+                W.clock.now += 660
+                fl.tick(1.0)
+                ok = c20.drain_due(W) and ok
+                snap = ([(c.has_file, c.wants_file) for c in w.ArchiveFileCopy.select().order_by(w.ArchiveFileCopy.id)],
+                        [(bool(r.completed), bool(r.cancelled)) for r in w.ArchiveFileCopyRequest.select().order_by(w.ArchiveFileCopyRequest.id)], W.queue.deferred_size)
+                if snap == seen and fixed_at is None:
+                    fixed_at = rnd
+                seen = snap
+            ctx.count("hsm-convergence")
+            ctx.distinct_add(("hsm", states))
+            verdicts = [c.has_file for c in w.ArchiveFileCopy.select().where(w.ArchiveFileCopy.node == W.node.id).order_by(w.ArchiveFileCopy.id)]
+            reqs = [(bool(r.completed), bool(r.cancelled)) for r in w.ArchiveFileCopyRequest.select().order_by(w.ArchiveFileCopyRequest.id)]
+            left = (W.queue.qsize, W.queue.inprogress_size, W.queue.deferred_size)
+            rp = {"family": "hsm", "residency": list(states), "verdicts": verdicts, "requests_completed_cancelled": reqs, "queued_running_deferred": left, "rounds": ROUND_LIMIT}
+            if not ok:
+                ctx.fail("C05:daemon-died", f"HSM node with suspect copies in states {states}: a task raised (the daemon would stop)", rp)
+            if "M" in verdicts:
+                ctx.fail("C05:suspect-without-verdict", f"HSM node, suspect copies in residency states {states}: after {ROUND_LIMIT} fault-free rounds (ten minutes apart) the copies are {verdicts}: "
+                         f"a suspect copy still has no verdict; tasks queued / running / deferred: {left}", rp)
+            elif any(r != (True, False) for r in reqs):
+                ctx.fail("C05:pending-without-reason", f"HSM source with copies in residency states {states} (all healthy: {verdicts}): after {ROUND_LIMIT} fault-free rounds the transfers are "
+                         f"(completed, cancelled) = {reqs}; tasks queued / running / deferred: {left}", rp)
+            elif any(left):
+                ctx.fail("C05:no-fixed-point", f"HSM node, states {states}: everything is verified and transferred but tasks keep re-queueing themselves: queued / running / deferred = {left}", rp)
+        finally:
+            fl.remove()
+            W.close()
+            pool.global_abort.clear()
+
+
 def explore(ctx):
     base = ctx.tmp()
     q = ctx.quick()
     explore_transport(ctx, base, 150 if q else 4000)
     explore_items(ctx, base, 60 if q else 2500)
     explore_histories(ctx, base, 40 if q else 1500)
+    explore_hsm(ctx, base)
 
 
 def search(ctx):
